@@ -113,6 +113,8 @@ class Clause:
                                        # after every step and hooks.done(case, out) in teardown; `check` replays a
                                        # recorded history without Hypothesis
     steps: int = 8                     # stateful_step_count
+    fuzz: dict = None                  # thorough tier only: {"runs": N, "procs": P} coverage-guided (atheris) campaigns
+                                       # driving this clause's strategy through hypothesis.fuzz_one_input
     budget: dict = field(default_factory=lambda: {"quick": 100, "thorough": 1000})
     max_shards: int = 16
     min_per_shard: int = 10
